@@ -23,6 +23,16 @@ distance being used as an upper bound for DTW.
 @return Euclidean distance
 */
 seq_t euclidean_distance(seq_t *s1, idx_t l1, seq_t *s2, idx_t l2) {
+    return sqrt(euclidean_distance_sum(s1, l1, s2, l2));
+}
+
+/*!
+Sum of squared differences, i.e. the Euclidean distance before taking the square root.
+
+This is the internal representation used by DTW; using it directly as pruning threshold
+avoids the sqrt/pow round trip that can round the bound below the exact sum.
+*/
+seq_t euclidean_distance_sum(seq_t *s1, idx_t l1, seq_t *s2, idx_t l2) {
     idx_t n = MIN(l1, l2);
     seq_t ub = 0;
     for (idx_t i=0; i<n; i++) {
@@ -39,7 +49,6 @@ seq_t euclidean_distance(seq_t *s1, idx_t l1, seq_t *s2, idx_t l2) {
             ub += SEDIST(s1[n-1], s2[i]);
         }
     }
-    ub = sqrt(ub);
     return ub;
 }
 
@@ -93,6 +102,15 @@ assumed to be c-contiguous with as 1st dimension the sequence and the
 @return Euclidean distance
 */
 seq_t euclidean_distance_ndim(seq_t *s1, idx_t l1, seq_t *s2, idx_t l2, int ndim) {
+    return sqrt(euclidean_distance_ndim_sum(s1, l1, s2, l2, ndim));
+}
+
+/*!
+Sum of squared differences for n-dimensional series (Euclidean distance before the square root).
+
+@see euclidean_distance_sum
+*/
+seq_t euclidean_distance_ndim_sum(seq_t *s1, idx_t l1, seq_t *s2, idx_t l2, int ndim) {
     idx_t n = MIN(l1, l2);
     idx_t idx;
     seq_t d;
@@ -126,7 +144,6 @@ seq_t euclidean_distance_ndim(seq_t *s1, idx_t l1, seq_t *s2, idx_t l2, int ndim
             ub += d;
         }
     }
-    ub = sqrt(ub);
     return ub;
 }
 
